@@ -51,15 +51,23 @@ type Scenario struct {
 	Reused bool   `json:"reused,omitempty"` // the fault hits an upstream connection that already served a warm-up exchange
 	Method string `json:"m,omitempty"`      // method of request 1 (GET | POST)
 	Proto  string `json:"p,omitempty"`      // client protocol: 1.1 | 1.0ka
-	Mod    string `json:"mod,omitempty"`    // stock modifier installed as request+response modifier: "" | har | martianlog | marbl
-	M2     string `json:"m2,omitempty"`     // method of the second request ("" = GET | POST | HEAD)
-	Pipe   bool   `json:"pipe,omitempty"`   // the second request is already sent (same write) when the fault happens
-	Split  int    `json:"split,omitempty"`  // > 0: the origin writes its k bytes in two writes, cut at this offset
-	Two    bool   `json:"two,omitempty"`    // corruption of the two bytes at Pos, Pos+1 (Repl, Repl2)
-	Repl2  int    `json:"repl2,omitempty"`
-	Pos    int    `json:"pos,omitempty"`  // corruption position
-	Repl   int    `json:"repl,omitempty"` // replacement byte
-	TCP    bool   `json:"tcp,omitempty"`
+	// audit extensions
+	Repeat  int    `json:"repeat,omitempty"`  // number of consecutive faulted requests for /first (default 1)
+	Upload  string `json:"upload,omitempty"`  // kind upload: what the origin does once it has the request HEAD (it never reads the body): close_at_head | early_413_close | partial_head
+	Body    int    `json:"body,omitempty"`    // kind upload: size of request 1's body
+	Chunked bool   `json:"chunked,omitempty"` // kind upload: request 1's body is chunked
+	Expect  bool   `json:"expect,omitempty"`  // kind upload: request 1 carries Expect: 100-continue
+	Tail    string `json:"tail,omitempty"`    // kind keepopen: bytes the origin sends right after its complete response while keeping the connection open
+	IdleMs  int    `json:"idle_ms,omitempty"` // kind client: proxy.SetTimeout; the client sends the stream and then stays silent without closing
+	Mod     string `json:"mod,omitempty"`     // stock modifier installed as request+response modifier: "" | har | martianlog | marbl
+	M2      string `json:"m2,omitempty"`      // method of the second request ("" = GET | POST | HEAD)
+	Pipe    bool   `json:"pipe,omitempty"`    // the second request is already sent (same write) when the fault happens
+	Split   int    `json:"split,omitempty"`   // > 0: the origin writes its k bytes in two writes, cut at this offset
+	Two     bool   `json:"two,omitempty"`     // corruption of the two bytes at Pos, Pos+1 (Repl, Repl2)
+	Repl2   int    `json:"repl2,omitempty"`
+	Pos     int    `json:"pos,omitempty"`  // corruption position
+	Repl    int    `json:"repl,omitempty"` // replacement byte
+	TCP     bool   `json:"tcp,omitempty"`
 }
 
 type script struct {
@@ -282,6 +290,9 @@ func scenarios(tier string, keep func(id int) bool) (map[int]*Scenario, int, map
 					for _, m := range methods {
 						for _, m2 := range m2s {
 							for _, pipe := range pipes {
+								if len(sc.wire) > 2000 && (pr != "1.1" || m2 == "HEAD") {
+									continue // the 5200-byte scripts: HTTP/1.1 clients, second request GET or POST
+								}
 								last := len(sc.wire)
 								if m == "HEAD" {
 									last = sc.headLen
@@ -380,6 +391,7 @@ func scenarios(tier string, keep func(id int) bool) (map[int]*Scenario, int, map
 			}
 		}
 	}
+	auditScenarios(tier, add)
 	// 6. client byte streams against a proxy with MITM enabled
 	mitmScenarios(tier, add)
 	// 5b (thorough). every two-byte corruption window of the same requests: both bytes replaced by every pair
@@ -397,6 +409,100 @@ func scenarios(tier string, keep func(id int) bool) (map[int]*Scenario, int, map
 		}
 	}
 	return list, total, fam
+}
+
+// auditScenarios: families added by the audit of the check.
+func auditScenarios(tier string, add func(Scenario)) {
+	thorough := tier == "thorough"
+	// A1. the origin stops caring while the request is still being uploaded: it answers (or not) as soon as it
+	// has the request head, never reads the body and closes
+	bodies := []int{6, 4097, 300001}
+	for _, up := range []string{"close_at_head", "partial_head", "early_413_close"} {
+		for _, n := range bodies {
+			for _, ch := range []bool{false, true} {
+				for _, ex := range []bool{false, true} {
+					for _, reused := range []bool{false, true} {
+						for _, pipe := range []bool{false, true} {
+							if !thorough && (pipe && n > 6 || reused && ch) {
+								continue
+							}
+							if pipe && n > 100000 {
+								continue // the pipelined request must fit the connection buffers
+							}
+							add(Scenario{Kind: "upload", Upload: up, Body: n, Chunked: ch, Expect: ex, Reused: reused, Pipe: pipe, Method: "POST", Proto: "1.1", K: -1})
+						}
+					}
+				}
+			}
+		}
+	}
+	// A2. several faulted requests in a row on one client connection (each must yield its own 502), then a good one
+	for _, sc := range scripts("quick") {
+		step := 1
+		if !thorough {
+			step = 7
+		}
+		for _, rp := range []int{2, 3} {
+			for _, m := range []string{"GET", "POST"} {
+				for k := 0; k < sc.headLen; k += step {
+					add(Scenario{Kind: "truncate", Script: sc.name, K: k, Method: m, Proto: "1.1", Repeat: rp})
+				}
+			}
+		}
+	}
+	// A3. the origin keeps the connection open after a complete response but sends unsolicited bytes behind it
+	tails := []string{"\x00\xffGARBAGE\r\n", "HTTP/1.1 200 OK\r\nContent-Length: 3\r\n\r\nBAD", "HTTP/1.1 20", "\r\n"}
+	for _, scn := range []string{"cl", "chunked", "204"} {
+		for ti := range tails {
+			for _, m := range []string{"GET", "POST"} {
+				for _, m2 := range []string{"", "POST", "HEAD"} {
+					for _, pipe := range []bool{false, true} {
+						add(Scenario{Kind: "keepopen", Script: scn, K: ti, Tail: tails[ti], Method: m, Proto: "1.1", M2: m2, Pipe: pipe})
+					}
+				}
+			}
+		}
+	}
+	// A4. request 1 asks for the connection to be closed: the 502 is delivered and the connection then closes
+	for _, sc := range scripts("quick") {
+		for _, m := range []string{"GET", "POST"} {
+			for k := 0; k < sc.headLen; k++ {
+				if !thorough && k%5 != 0 {
+					continue
+				}
+				add(Scenario{Kind: "truncate", Script: sc.name, K: k, Method: m, Proto: "1.1close"})
+			}
+		}
+	}
+	for _, de := range dialErrorClasses {
+		for _, m := range []string{"GET", "CONNECT"} {
+			add(Scenario{Kind: "dial", Dial: de, Method: m, Proto: "1.1close", Script: "cl", K: -1})
+		}
+	}
+	// A5. CONNECT through a downstream proxy (SetDownstreamProxy): the downstream proxy's answer to the
+	// CONNECT is cut at every offset
+	for _, ds := range downstreamScripts {
+		for k := 0; k <= len(ds.wire); k++ {
+			for _, pipe := range []bool{false, true} {
+				if pipe && k >= ds.headLen {
+					continue
+				}
+				add(Scenario{Kind: "downstream", Script: ds.name, K: k, Method: "CONNECT", Proto: "1.1", Pipe: pipe})
+			}
+		}
+	}
+	// A6. the client sends part of a request and then stays silent without closing: the proxy's timeout must end
+	// the connection (SetTimeout(400 ms); wall-clock bound: the generous hang deadline)
+	for _, st := range []string{"", "GET http://origin.test/fi", "POST http://origin.test/first HTTP/1.1\r\nHost: origin.test\r\nContent-Length: 10\r\n\r\nabc", "GET http://origin.test/first HTTP/1.1\r\nHost: origin.test\r\n"} {
+		add(Scenario{Kind: "client", Script: "idle", Tail: st, K: len(st), IdleMs: 400})
+	}
+}
+
+var downstreamScripts = []script{
+	mkScript("ds_200", "HTTP/1.1 200 Connection established\r\n\r\n", "", "", false, false, 200),
+	mkScript("ds_200_cl0", "HTTP/1.1 200 OK\r\nContent-Length: 0\r\nVia: 1.1 downstream\r\n\r\n", "", "", false, false, 200),
+	mkScript("ds_407", "HTTP/1.1 407 Proxy Authentication Required\r\nProxy-Authenticate: Basic realm=\"ds\"\r\nContent-Length: 4\r\n\r\n", "auth", "auth", false, false, 407),
+	mkScript("ds_503_close", "HTTP/1.1 503 Service Unavailable\r\nContent-Length: 0\r\nConnection: close\r\n\r\n", "", "", false, true, 503),
 }
 
 // twoWrites: the origin writes its k bytes in two writes cut at j. Scripts up to 260 bytes: every pair j < k;
@@ -547,6 +653,9 @@ func request(method, path, proto string) []byte {
 		if proto == "1.0ka" {
 			sb.WriteString("Connection: keep-alive\r\n")
 		}
+		if proto == "1.1close" {
+			sb.WriteString("Connection: close\r\n")
+		}
 		sb.WriteString("\r\n")
 		return []byte(sb.String())
 	}
@@ -554,10 +663,38 @@ func request(method, path, proto string) []byte {
 	if proto == "1.0ka" {
 		sb.WriteString("Connection: keep-alive\r\n")
 	}
+	if proto == "1.1close" {
+		sb.WriteString("Connection: close\r\n")
+	}
 	if method == "POST" {
 		sb.WriteString("Content-Type: application/x-www-form-urlencoded\r\nContent-Length: 6\r\n\r\ndata=1")
 	} else {
 		sb.WriteString("\r\n")
+	}
+	return []byte(sb.String())
+}
+
+// uploadRequest: request 1 of the upload family (POST with a body of the given size and framing).
+func uploadRequest(s *Scenario) []byte {
+	var sb strings.Builder
+	fmt.Fprintf(&sb, "POST http://%s/first HTTP/1.1\r\nHost: %s\r\nContent-Type: application/octet-stream\r\n", originHost, originHost)
+	if s.Expect {
+		sb.WriteString("Expect: 100-continue\r\n")
+	}
+	body := strings.Repeat("u", s.Body)
+	if s.Chunked {
+		sb.WriteString("Transfer-Encoding: chunked\r\n\r\n")
+		for len(body) > 0 {
+			n := 4000
+			if n > len(body) {
+				n = len(body)
+			}
+			fmt.Fprintf(&sb, "%x\r\n%s\r\n", n, body[:n])
+			body = body[n:]
+		}
+		sb.WriteString("0\r\n\r\n")
+	} else {
+		fmt.Fprintf(&sb, "Content-Length: %d\r\n\r\n%s", s.Body, body)
 	}
 	return []byte(sb.String())
 }
@@ -595,6 +732,9 @@ func runScenario(s *Scenario, kind string, quiet time.Duration) *runOut {
 	if s.Kind == "mitm" {
 		return runMITMStream(s, kind, quiet)
 	}
+	if s.Kind == "downstream" {
+		return runDownstreamConnect(s, kind, quiet)
+	}
 	out := &runOut{}
 	rec := &recorder{}
 	// what the origin does with the first request for /first
@@ -612,10 +752,38 @@ func runScenario(s *Scenario, kind string, quiet time.Duration) *runOut {
 		faultBytes = lookupCorpus(oCorpus, s.Script)[:s.K]
 	case "dial":
 		sc, _ = lookupScript("", s.Script)
+	case "keepopen":
+		sc, isScript = lookupScript("", s.Script)
+		faultBytes = append(append([]byte{}, sc.wire...), s.Tail...)
 	}
 	var mu sync.Mutex
-	injected := false
+	faults := 0
+	repeat := s.Repeat
+	if repeat < 1 {
+		repeat = 1
+	}
 	origin := &h1harness.Origin{}
+	if s.Kind == "upload" {
+		origin.Early = func(conn, idx int, head *h1harness.RawRequest) *h1harness.Action {
+			if !strings.HasSuffix(head.Target, "/first") {
+				return nil
+			}
+			mu.Lock()
+			first := faults == 0
+			faults++
+			mu.Unlock()
+			if !first {
+				return nil
+			}
+			switch s.Upload {
+			case "partial_head":
+				return &h1harness.Action{Write: [][]byte{[]byte("HTTP/1.1 200 OK\r\nContent-Le")}, Close: true}
+			case "early_413_close":
+				return &h1harness.Action{Write: [][]byte{[]byte("HTTP/1.1 413 Payload Too Large\r\nContent-Length: 0\r\nConnection: close\r\n\r\n")}, Close: true}
+			}
+			return &h1harness.Action{Close: true}
+		}
+	}
 	origin.Handler = func(conn, idx int, req *h1harness.RawRequest, perr error) h1harness.Action {
 		if perr != nil {
 			return h1harness.Action{Close: true}
@@ -634,9 +802,12 @@ func runScenario(s *Scenario, kind string, quiet time.Duration) *runOut {
 			return h1harness.Action{Write: [][]byte{secondResp}}
 		case strings.HasSuffix(req.Target, "/first"):
 			mu.Lock()
-			first := !injected
-			injected = true
+			first := faults < repeat
+			faults++
 			mu.Unlock()
+			if first && s.Kind == "keepopen" {
+				return h1harness.Action{Write: [][]byte{faultBytes}} // complete response, unsolicited tail, connection stays open
+			}
 			if first && s.Kind != "dial" {
 				if s.Split > 0 && s.Split < len(faultBytes) {
 					return h1harness.Action{Write: [][]byte{faultBytes[:s.Split], faultBytes[s.Split:]}, Close: true}
@@ -705,6 +876,15 @@ func runScenario(s *Scenario, kind string, quiet time.Duration) *runOut {
 		} else {
 			class = "origin_nonhttp_after_head"
 		}
+	case "upload":
+		class = "origin_closes_during_request_upload"
+		headIncomplete = s.Upload != "early_413_close"
+	case "keepopen":
+		class = "origin_unsolicited_bytes_after_response"
+		headIncomplete = false
+	}
+	if repeat > 1 {
+		class += "+repeated"
 	}
 	if s.Mod != "" {
 		class += "+modifier:" + s.Mod
@@ -727,6 +907,24 @@ func runScenario(s *Scenario, kind string, quiet time.Duration) *runOut {
 			return out
 		}
 	}
+	// several faulted requests in a row: each but the last is checked here, the last by the regular flow
+	for i := 1; i < repeat; i++ {
+		if err := cl.Send(request(s.Method, "/first", s.Proto)); err != nil {
+			report("client_write_failed", err.Error())
+			return out
+		}
+		r := cl.ReadResponse(s.Method)
+		seen := false
+		for _, w := range r.Header["Warning"] {
+			if rec.sawWarningOn502(w) {
+				seen = true
+			}
+		}
+		if r.HeadErr != "" || r.Status != 502 || r.BodyEnd != h1harness.EndOK || !seen {
+			report("no_502_on_incomplete_head", fmt.Sprintf("faulted request %d of %d in a row: head=%q status=%d warning-seen=%v", i, repeat, r.HeadErr, r.Status, seen))
+			return out
+		}
+	}
 	rawStart := len(cl.Raw())
 	// phase A: request 1
 	m2 := s.M2
@@ -734,6 +932,9 @@ func runScenario(s *Scenario, kind string, quiet time.Duration) *runOut {
 		m2 = "GET"
 	}
 	req1 := request(s.Method, "/first", s.Proto)
+	if s.Kind == "upload" {
+		req1 = uploadRequest(s)
+	}
 	if s.Pipe {
 		req1 = append(req1, request(m2, "/second", s.Proto)...)
 	}
@@ -864,6 +1065,14 @@ func runScenario(s *Scenario, kind string, quiet time.Duration) *runOut {
 	// a complete origin response may legitimately end the connection (Connection: close, close-delimited);
 	// a 502 synthesised by the proxy may not: "after a 502 the same client connection continues to serve"
 	resp1ClosesConn := !is502 && (closedAfter1 || r1.Close)
+	if s.Proto == "1.1close" {
+		// the client asked for the connection to be closed after request 1: nothing more is owed, but the
+		// connection must really end
+		resp1ClosesConn = true
+		if complete && endB != h1harness.EndEOF && endB != h1harness.EndReset {
+			report("conn_not_closed_after_close_request", "request 1 carried Connection: close; after its response the connection ended as: "+endB)
+		}
+	}
 	if isScript && !is502 && !sc.closes && s.Kind == "truncate" && s.K == len(sc.wire) {
 		resp1ClosesConn = false // a complete keep-alive response: the connection must stay usable
 	}
@@ -888,7 +1097,9 @@ func runScenario(s *Scenario, kind string, quiet time.Duration) *runOut {
 					seen = true
 				}
 			}
-			if !reached && seen {
+			// (keepopen: the unsolicited bytes sit on the very upstream connection request 2 may be sent on;
+			// what the transport then reads in answer to request 2 is not HTTP, whether or not the origin saw it)
+			if (!reached || s.Kind == "keepopen") && seen {
 				ok = true
 				rest = nil
 				out.outcome += " second=502_upstream_failure"
@@ -943,7 +1154,9 @@ func trunc(b []byte, n int) []byte {
 func runClientStream(s *Scenario, kind string, quiet time.Duration) *runOut {
 	out := &runOut{}
 	var stream []byte
-	if s.K >= 0 {
+	if s.Script == "idle" {
+		stream = []byte(s.Tail)
+	} else if s.K >= 0 {
 		stream = lookupCorpus(cCorpus, s.Script)[:s.K]
 	} else {
 		base := lookupCorpus(corruptionBases(), strings.TrimPrefix(s.Script, "corrupt_"))
@@ -970,7 +1183,7 @@ func runClientStream(s *Scenario, kind string, quiet time.Duration) *runOut {
 		}
 		return h1harness.Action{Write: [][]byte{genericResp}}
 	}
-	env, err := h1harness.NewEnv(h1harness.EnvOpts{Kind: kind, Dial: func(n int, addr string) error {
+	env, err := h1harness.NewEnv(h1harness.EnvOpts{Kind: kind, Timeout: time.Duration(s.IdleMs) * time.Millisecond, Dial: func(n int, addr string) error {
 		if addr != originHost+":80" {
 			return h1harness.Refused(addr)
 		}
@@ -994,9 +1207,191 @@ func runClientStream(s *Scenario, kind string, quiet time.Duration) *runOut {
 	if quiet > 0 {
 		cl.QuietTimeout = quiet
 	}
-	werr := cl.Send(stream, request("GET", "/second", "1.1"))
+	if s.IdleMs > 0 {
+		// a silent client: no EOF, no further bytes. Only the proxy's own timeout can end this connection; the
+		// structural stall detection is switched off (this stall is the scenario), the hang deadline judges.
+		if m, ok := cl.Conn.(*h1harness.MemConn); ok {
+			m.StallAware = false
+		}
+		cl.HangDeadline = 15 * time.Second
+		cl.QuietTimeout = 15 * time.Second
+		cl.Send([]byte(s.Tail))
+		got, end := cl.Drain()
+		out.outcome = fmt.Sprintf("idle|%d|%s", len(got), short(end))
+		if end != h1harness.EndEOF && end != h1harness.EndReset {
+			report("hang_idle_connection_not_timed_out", fmt.Sprintf("the client sent %q and went silent; with SetTimeout(%d ms) the proxy must give up on the connection, it ended as: %s", trunc([]byte(s.Tail), 60), s.IdleMs, end))
+		}
+	} else {
+		werr := cl.Send(stream, request("GET", "/second", "1.1"))
+		cl.CloseWrite()
+		got, end := cl.Drain()
+		clientStreamVerdict(stream, got, end, werr, out, report)
+	}
+	// the proxy must still serve a fresh connection
+	c2, err := env.NewClient()
+	if err != nil {
+		report("proxy_dead_after_stream", "cannot connect to the proxy any more: "+err.Error())
+		return out
+	}
+	if quiet > 0 {
+		c2.QuietTimeout = quiet
+	}
+	c2.Send(request("GET", "/second", "1.1"))
+	r := c2.ReadResponse("GET")
+	if r.HeadErr != "" || r.Status != 200 || string(r.Body) != marker {
+		report("proxy_dead_after_stream", fmt.Sprintf("a fresh connection is not served after the stream: head=%q status=%d body=%q", r.HeadErr, r.Status, trunc(r.Body, 40)))
+	}
+	return out
+}
+
+// runDownstreamConnect: the proxy is configured with a downstream proxy (SetDownstreamProxy) and the client asks
+// for a CONNECT tunnel; the downstream proxy's answer to the forwarded CONNECT is cut at offset K.
+func runDownstreamConnect(s *Scenario, kind string, quiet time.Duration) *runOut {
+	out := &runOut{}
+	rec := &recorder{}
+	var ds script
+	for _, d := range downstreamScripts {
+		if d.name == s.Script {
+			ds = d
+		}
+	}
+	headIncomplete := s.K < ds.headLen
+	class := "downstream_connect_answer_complete"
+	if headIncomplete {
+		class = "downstream_connect_answer_truncated_in_head"
+	} else if s.K < len(ds.wire) {
+		class = "downstream_connect_answer_truncated_in_body"
+	}
+	report := func(sym, detail string) {
+		c := class
+		if strings.HasPrefix(sym, "502_") || sym == "second_request_not_served_after_502" {
+			c = "upstream_failure"
+		}
+		out.findings = append(out.findings, finding{c, sym, detail})
+	}
+	var mu sync.Mutex
+	connects := 0
+	origin := &h1harness.Origin{}
+	origin.Handler = func(conn, idx int, req *h1harness.RawRequest, perr error) h1harness.Action {
+		if perr != nil {
+			return h1harness.Action{Close: true}
+		}
+		if req.Method == "CONNECT" {
+			mu.Lock()
+			connects++
+			mu.Unlock()
+			return h1harness.Action{Write: [][]byte{ds.wire[:s.K]}, Close: s.K < len(ds.wire) || ds.closes}
+		}
+		if strings.HasSuffix(req.Target, "/second") {
+			return h1harness.Action{Write: [][]byte{secondResp}}
+		}
+		return h1harness.Action{Write: [][]byte{genericResp}}
+	}
+	env, err := h1harness.NewEnv(h1harness.EnvOpts{Kind: kind, ResMod: rec, Downstream: "http://downstream.test:3128", Dial: func(n int, addr string) error {
+		if addr != "downstream.test:3128" {
+			return h1harness.Refused(addr) // with a downstream proxy configured nothing else may be dialled
+		}
+		return nil
+	}}, origin)
+	if err != nil {
+		out.findings = append(out.findings, finding{"harness", "env_failed", err.Error()})
+		return out
+	}
+	defer func() {
+		out.origin = len(env.Origin.Log())
+		if !env.Close() {
+			report("proxy_shutdown_hang", "proxy.Close() did not return within 20 s")
+		}
+	}()
+	cl, err := env.NewClient()
+	if err != nil {
+		out.findings = append(out.findings, finding{"harness", "client_dial_failed", err.Error()})
+		return out
+	}
+	if quiet > 0 {
+		cl.QuietTimeout = quiet
+	}
+	second := request("GET", "/second", "1.1")
+	first := request("CONNECT", "", "1.1")
+	if s.Pipe {
+		first = append(first, second...)
+	}
+	cl.Send(first)
+	lines, end := cl.ReadHead()
+	status := ""
+	if end == h1harness.EndOK && len(lines) > 0 {
+		if f := strings.Fields(lines[0]); len(f) >= 2 {
+			status = f[1]
+		}
+	}
+	out.outcome = fmt.Sprintf("connect=%s/%s", status, short(end))
+	switch {
+	case end == h1harness.EndHang || end == h1harness.EndStalled:
+		report("no_response", "the CONNECT is never answered: "+end)
+		return out
+	case headIncomplete:
+		seen, has := false, false
+		for _, l := range lines[1:] {
+			if strings.HasPrefix(strings.ToLower(l), "warning:") {
+				has = true
+				if rec.sawWarningOn502(strings.TrimSpace(l[len("warning:"):])) {
+					seen = true
+				}
+			}
+		}
+		switch {
+		case status != "502":
+			report("no_502_on_incomplete_head", fmt.Sprintf("the downstream proxy closed inside its response head (offset %d of %d) but the client got %q (%s)", s.K, ds.headLen, lines, end))
+			return out
+		case !has:
+			report("502_without_warning", fmt.Sprintf("502 without Warning: %q", lines))
+		case !seen:
+			report("502_warning_not_seen_by_modifier", fmt.Sprintf("the Warning of %q did not pass through the response modifier", lines))
+		}
+		// after a 502 the same client connection continues to serve further requests
+		if !s.Pipe {
+			cl.Send(second)
+		}
+		r := cl.ReadResponse("GET")
+		if r.HeadErr != "" || r.Status != 200 || string(r.Body) != marker {
+			report("second_request_not_served_after_502", fmt.Sprintf("after the 502 for the CONNECT: head=%q status=%d body=%q", r.HeadErr, r.Status, trunc(r.Body, 40)))
+		}
+		out.outcome += " second=" + fmt.Sprint(r.Status)
+	case status == "200" && s.K == len(ds.wire):
+		// the tunnel is up: the downstream proxy (the scripted origin) serves what comes through it
+		cl.Send([]byte("GET /second HTTP/1.1\r\nHost: " + originHost + "\r\n\r\n"))
+		r := cl.ReadResponse("GET")
+		if r.HeadErr != "" || r.Status != 200 || string(r.Body) != marker {
+			report("tunnel_not_usable", fmt.Sprintf("request through the established tunnel: head=%q status=%d body=%q", r.HeadErr, r.Status, trunc(r.Body, 40)))
+		}
+		out.outcome += " tunnel=" + fmt.Sprint(r.Status)
+	default:
+		if status != fmt.Sprint(ds.status) {
+			report("resp_mismatch", fmt.Sprintf("the downstream proxy answered %d, the client got %q (%s)", ds.status, lines, end))
+		}
+	}
 	cl.CloseWrite()
-	got, end := cl.Drain()
+	if _, e := cl.Drain(); e == h1harness.EndHang {
+		report("hang", "after the client's EOF the connection is neither served nor closed within the hang deadline")
+	}
+	cl.Conn.Close()
+	// the proxy must still serve a fresh connection
+	c2, err := env.NewClient()
+	if err != nil {
+		report("proxy_dead_after_stream", err.Error())
+		return out
+	}
+	if quiet > 0 {
+		c2.QuietTimeout = quiet
+	}
+	c2.Send(second)
+	if r := c2.ReadResponse("GET"); r.HeadErr != "" || r.Status != 200 || string(r.Body) != marker {
+		report("proxy_dead_after_stream", fmt.Sprintf("a fresh connection is not served: head=%q status=%d", r.HeadErr, r.Status))
+	}
+	return out
+}
+
+func clientStreamVerdict(stream, got []byte, end string, werr error, out *runOut, report func(sym, detail string)) {
 	first := ""
 	if i := bytes.IndexByte(got, '\r'); i >= 0 {
 		first = string(got[:i])
@@ -1019,21 +1414,6 @@ func runClientStream(s *Scenario, kind string, quiet time.Duration) *runOut {
 	if len(got) > 0 && !bytes.HasPrefix(got, []byte("HTTP/")) {
 		report("non_http_bytes_to_client", fmt.Sprintf("the proxy sent %q", trunc(got, 80)))
 	}
-	// the proxy must still serve a fresh connection
-	c2, err := env.NewClient()
-	if err != nil {
-		report("proxy_dead_after_stream", "cannot connect to the proxy any more: "+err.Error())
-		return out
-	}
-	if quiet > 0 {
-		c2.QuietTimeout = quiet
-	}
-	c2.Send(request("GET", "/second", "1.1"))
-	r := c2.ReadResponse("GET")
-	if r.HeadErr != "" || r.Status != 200 || string(r.Body) != marker {
-		report("proxy_dead_after_stream", fmt.Sprintf("a fresh connection is not served after the stream: head=%q status=%d body=%q", r.HeadErr, r.Status, trunc(r.Body, 40)))
-	}
-	return out
 }
 
 func describe(s *Scenario) string {
@@ -1047,7 +1427,7 @@ func runCase(s *Scenario) *h1harness.CaseResult {
 	res.C["scenarios"]++
 	res.C["kind_"+s.Kind]++
 	res.C["origin_requests"] += int64(o.origin)
-	if s.K > 0 || s.Kind == "dial" || s.K == -1 || s.Kind == "mitm" {
+	if s.K > 0 || s.Kind == "dial" || s.K == -1 || s.Kind == "mitm" || s.Kind == "upload" || s.Kind == "keepopen" {
 		res.C["nontrivial"]++
 	}
 	res.K["outcomes"] = []string{s.Kind + ":" + o.outcome}
